@@ -111,6 +111,29 @@ func c11ops() map[string]c11op {
 		})
 	}
 	cap2 := &hydrapb.Cap{Filter: c11claimed, MaxMatching: 2}
+	// creates a record from a seed body that ALREADY matches the cap filter; the op leaves it matching. A create moves
+	// the swamp from "no such record" to "one more matching record" and must consume budget.
+	createClaimed := func(name string, keys ...string) {
+		add(name, func(rg *rigT, sw string) string {
+			var ps []*hydrapb.TreasurePatch
+			for _, k := range keys {
+				ps = append(ps, &hydrapb.TreasurePatch{Key: k, Ops: []*hydrapb.PatchOp{{Op: hydrapb.PatchOp_SET, Path: "s", Value: mp("y")}}})
+			}
+			r, err := rg.gw.PatchTreasures(bg, &hydrapb.PatchTreasuresRequest{IslandID: 1, SwampName: sw, Patches: ps, Cap: cap2, CreateIfNotExist: true,
+				InitialMsgpackOnCreate: mp(map[string]any{"s": "x", "st": "claimed"})})
+			if err != nil {
+				return errS(err)
+			}
+			var k []string
+			for _, x := range r.GetResults() {
+				k = append(k, x.Key+":"+x.Status.String())
+			}
+			return fmt.Sprintf("[%s] capReached=%v", strings.Join(k, " "), r.GetCapReached())
+		})
+	}
+	createClaimed("CreateClaimed(n1,cap2)", "n1")
+	createClaimed("CreateClaimed(n2,cap2)", "n2")
+	createClaimed("CreateClaimed(n1&n2,cap2)", "n1", "n2")
 	patch("Patch(r1:s=y)", nil, "s", "y", "r1")
 	patch("Claim(r1,cap2)", cap2, "st", "claimed", "r1")
 	patch("Claim(r2,cap2)", cap2, "st", "claimed", "r2")
@@ -250,6 +273,8 @@ var c11progs = map[string][][2]string{
 		{"PatchExpired(1,cap2)", "PatchExpired(1,cap2)"},
 		{"PatchExpired(2,cap2)", "Claim(r3,cap2)"},
 		{"PatchExpired(1,cap2)", "Claim(r1,cap2)"},
+		{"CreateClaimed(n1,cap2)", "CreateClaimed(n2,cap2)"},
+		{"CreateClaimed(n1&n2,cap2)", "Claim(r1,cap2)"},
 	},
 }
 
@@ -415,7 +440,7 @@ func c11main(t *testing.T, prop string) {
 					// An outcome that equals a sequential one is fine. Otherwise the property's own clauses decide (the
 					// claim paths are not atomic by design: a record selected and then found deleted is reported as
 					// KEY_NOT_FOUND, which no sequential order produces but which the property allows).
-					if !adm[o] {
+					if !adm[o] || (prop == "C12" && claimed > 2) { // the cap is an invariant: it also judges the sequential outcomes
 						recv := func(i int) map[string]string { // key -> rendering of what the caller received
 							m := map[string]string{}
 							rs := resp[i]
